@@ -53,4 +53,44 @@ theorem readBrackets_sids (o : InOpts) (text : Str) (r : List (Nat × Tree)) (h 
 
 example : (readBrackets { firstId := some 7 } "(A a)(B b) (C (D d))".toList).map (·.map (·.1)) = .ok [7, 8, 9] := by rfl
 
+/-! ### export reader -/
+open TT.Lemmas.GramOut in
+theorem exportParseLine_v3_v4 (o : InOpts) (w le l m e : Str) (p : Nat)
+    (hok : ∀ x ∈ [w, le, l, m, e], x ≠ [] ∧ ∀ c ∈ x, pyIsSpace c = false) (hp : p = 0 ∨ (500 ≤ p ∧ p < 1000))
+    (hm : pyIsDigit m = false) (hle : pyIsDigit e = false) (hgf : o.gfSplit = false) :
+    (exportParseLine o (unwords [w, l, m, e, natToStr p])).map (fun f => (f.word, f.lemma, f.label, f.morph, f.edge, f.parent))
+        = .ok (w, DEFAULT_LEMMA, l, m, e, p) ∧
+    (exportParseLine o (unwords [w, le, l, m, e, natToStr p])).map (fun f => (f.word, f.lemma, f.label, f.morph, f.edge, f.parent))
+        = .ok (w, le, l, m, e, p) := by
+  have hpok : natToStr p ≠ [] ∧ ∀ c ∈ natToStr p, pyIsSpace c = false := ⟨natToStr_ne_nil p, natToStr_noSpace p⟩
+  have h3 : splitWs (unwords [w, l, m, e, natToStr p]) = [w, l, m, e, natToStr p] := by
+    apply splitWs_unwords
+    intro s hs
+    simp only [List.mem_cons, List.not_mem_nil, or_false] at hs
+    rcases hs with rfl | rfl | rfl | rfl | rfl
+    · exact hok _ (by simp)
+    · exact hok _ (by simp)
+    · exact hok _ (by simp)
+    · exact hok _ (by simp)
+    · exact hpok
+  have h4 : splitWs (unwords [w, le, l, m, e, natToStr p]) = [w, le, l, m, e, natToStr p] := by
+    apply splitWs_unwords
+    intro s hs
+    simp only [List.mem_cons, List.not_mem_nil, or_false] at hs
+    rcases hs with rfl | rfl | rfl | rfl | rfl | rfl
+    · exact hok _ (by simp)
+    · exact hok _ (by simp)
+    · exact hok _ (by simp)
+    · exact hok _ (by simp)
+    · exact hok _ (by simp)
+    · exact hpok
+  have hrange : (!((decide (500 ≤ p) && decide (p < 1000)) || p == 0)) = false := by
+    rcases hp with rfl | ⟨h1, h2⟩ <;> simp [*]
+  constructor
+  · simp [exportParseLine, h3, pyIsDigit_natToStr, strToNat_natToStr, hgf, hrange, Except.map]
+  · simp [exportParseLine, h4, hle, strToNat_natToStr, hgf, hrange, Except.map]
+
+example : (exportParseLine {} "Haus NN Nom.Sg OA 501".toList).map (fun f => (f.word, f.lemma, f.label, f.morph, f.edge, f.parent))
+    = .ok ("Haus".toList, DEFAULT_LEMMA, "NN".toList, "Nom.Sg".toList, "OA".toList, 501) := by rfl
+
 end TT.Props.C01
